@@ -24,7 +24,9 @@ def jobs_for(tier):
 
     def add(**kw):
         nonlocal n
-        cfg = c01.base_cfg(tier=tier, presence="symbolic", frame_checks=True, assume_generic=True, **kw)
+        kw2 = dict(presence="symbolic", frame_checks=True, assume_generic=True)
+        kw2.update(kw)
+        cfg = c01.base_cfg(tier=tier, **kw2)
         jobs.append(dict(id=f"p{n}", module="checks.c04", factory="make", cfg=cfg))
         n += 1
 
